@@ -23,7 +23,12 @@ func runPQ(rep *Report) {
 		if *fTier == "thorough" {
 			p.Steps = 600
 		}
-		s := pqrun.Run(r, cfg, p)
+		var s *pqrun.Session
+		if i%6 == 5 {
+			s = pqrun.ExactFill(r, cfg, (i/6)%8) // fill a fresh file to the last page, then drain
+		} else {
+			s = pqrun.Run(r, cfg, p)
+		}
 		if s.Q != nil {
 			s.Close()
 		}
@@ -38,10 +43,13 @@ func runPQ(rep *Report) {
 			tw.Write(s.Trace.Bytes())
 			fmt.Fprintf(tw, "end\n")
 		}
+		perKind := map[string]int{}
 		for k, f := range s.Failures {
-			if k >= 3 {
-				break
+			// at most 2 per kind, 12 per program: a frequent kind must not hide a different one
+			if perKind[f.Prop+"/"+f.Kind] >= 2 || len(perKind) > 12 {
+				continue
 			}
+			perKind[f.Prop+"/"+f.Kind]++
 			fr := FailureRec{Prop: f.Prop, Kind: f.Kind, Msg: f.Msg, Seed: *fSeed, Program: i, Step: f.Step}
 			if k == 0 && len(rep.Failures) < 3 {
 				fr.Trace = s.Trace.String()
@@ -98,10 +106,13 @@ func runPQCrash(rep *Report) {
 		rep.Programs++
 		rep.Steps += s.Step
 		rep.addCounts(s.Markers, s.OpCount, s.ErrCount)
+		perKind := map[string]int{}
 		for k, f := range s.Failures {
-			if k >= 3 {
-				break
+			// at most 2 per kind, 12 per program: a frequent kind must not hide a different one
+			if perKind[f.Prop+"/"+f.Kind] >= 2 || len(perKind) > 12 {
+				continue
 			}
+			perKind[f.Prop+"/"+f.Kind]++
 			fr := FailureRec{Prop: f.Prop, Kind: f.Kind, Msg: f.Msg, Seed: *fSeed, Program: i, Step: f.Step}
 			if k == 0 && len(rep.Failures) < 3 {
 				fr.Trace = s.Trace.String()
@@ -162,10 +173,13 @@ func runPQConc(rep *Report) {
 		}
 		rep.Markers["events-produced"] += res.Produced
 		rep.Markers["events-delivered"] += res.Delivered
+		perKind := map[string]int{}
 		for k, f := range s.Failures {
-			if k >= 3 {
-				break
+			// at most 2 per kind, 12 per program: a frequent kind must not hide a different one
+			if perKind[f.Prop+"/"+f.Kind] >= 2 || len(perKind) > 12 {
+				continue
 			}
+			perKind[f.Prop+"/"+f.Kind]++
 			fr := FailureRec{Prop: f.Prop, Kind: f.Kind, Msg: f.Msg, Seed: *fSeed, Program: i, Step: f.Step}
 			if k == 0 && len(rep.Failures) < 3 {
 				fr.Trace = s.Trace.String()
